@@ -17,7 +17,7 @@ import toolslib
 
 PROP = "C15"
 ENGINE = "traverse"
-TARGETS = ["I2N.Props.C15"]          # the driver has no exe entry in the lakefile: it is run as a script
+TARGETS = ["I2N.Props.C15", "drv_tools"]
 PROPS_FILE = "I2N/Props/C15.lean"
 ANCHORS = {"avocado_i2n/intertest_setup.py": ["update"],
            "avocado_i2n/cartgraph/graph.py": ["TestGraph.flag_children", "TestGraph.flag_intersection",
@@ -31,16 +31,14 @@ TRUSTED = ["the Cartesian parser is an oracle of the model and of the spec oracl
            "clean policy says so (engine E6; observed here through the executed tests and the door's unset requests)",
            "flag_children's worker regex `(?:^|\\.)<component form>.*<worker id>(?:$|\\.)` and flag_intersection's "
            "`<setless name>$` are read as attribute tests; the equivalence is checked on every node of every run",
-           "the driver is run by the Lean interpreter (`lake env lean --run Driver/Tools.lean`) unless a compiled "
-           "drv_tools exists"]
+           "the compiled driver drv_tools (falls back to `lake env lean --run Driver/Tools.lean` when it is stale)"]
 
 DEFAULT = {"vm1": "CentOS", "vm2": "Win10", "vm3": "Ubuntu"}
 # setup chains of the shipped suite (generator only; the oracle reads the parsed graph): state -> parent state
 CHAIN = {"vm1": {"install": None, "customize": "install", "on_customize": "customize", "connect": "customize",
                  "linux_virtuser": "customize"},
          "vm2": {"install": None, "customize": "install", "on_customize": "customize", "windows_virtuser": "customize"},
-         "vm3": {"install": None, "customize": "install", "on_customize": "customize", "connect": "customize",
-                 "linux_virtuser": "customize"}}
+         "vm3": {"install": None, "customize": "install", "on_customize": "customize", "connect": "customize"}}
 REMOVE_SETS = [None, "leaves", "minimal", "tutorial_gui", "tutorial_get", "tutorial1", "leaves..tutorial_gui"]
 NETS = ["net1", "net2", "net3", "net4"]
 
@@ -369,7 +367,7 @@ def gen_cases(rng, thorough):
                 (["vm1"], 2, {"vm1": ("customize", "connect")}, None),
                 (["vm2"], 1, {"vm2": ("install", "install")}, None),
                 (["vm2"], 2, {"vm2": ("customize", "customize")}, "tutorial_gui"),
-                (["vm3"], 1, {"vm3": ("customize", "linux_virtuser")}, "leaves"),
+                (["vm3"], 1, {"vm3": ("customize", "connect")}, "leaves"),
                 (["vm1"], 3, {"vm1": ("connect", "connect")}, "tutorial_get"),
                 (["vm1", "vm2"], 1, {"vm1": ("customize", "connect"), "vm2": ("install", "customize")}, None),
                 (["vm2"], 1, {"vm2": ("install", "windows_virtuser")}, None),
@@ -386,11 +384,15 @@ def gen_cases(rng, thorough):
                     combos.append(([vm], nw, {vm: ft}))
         rng.shuffle(combos)
         for vms, nw, ft in combos[:96]:
-            cases.append(mk_case(rng, vms, rng.sample(NETS, nw), ft, rng.choice(REMOVE_SETS)))
+            # mostly the default remove set (a narrower one often does not contain the state: rejected, which the
+            # oracle verifies but which exercises nothing else)
+            rs = None if rng.random() < 0.7 else rng.choice(REMOVE_SETS)
+            cases.append(mk_case(rng, vms, rng.sample(NETS, nw), ft, rs))
         for _ in range(24):
             vms = sorted(rng.sample(["vm1", "vm2", "vm3"], rng.choice([2, 2, 3])))
             ft = {vm: rng.choice(pairs(vm)) for vm in vms}
-            cases.append(mk_case(rng, vms, rng.sample(NETS, rng.choice([1, 1, 2])), ft, rng.choice(REMOVE_SETS[:4])))
+            cases.append(mk_case(rng, vms, rng.sample(NETS, rng.choice([1, 1, 2])), ft,
+                                 None if rng.random() < 0.7 else rng.choice(REMOVE_SETS[:4])))
     # unknown states are rejected
     rej = [(["vm1"], {"vm1": ("install", "nosuchstate")}), (["vm1"], {"vm1": ("nosuchstate", "customize")})]
     if thorough:
